@@ -164,10 +164,18 @@ def build(x):
     adv = x.method(F, 'IntervalJoin', 'advance')
     adv.add_spec(ADVANCE_SPEC)
     adv.text = '#[verifier::exec_allows_no_decreases_clause]\n' + adv.text
+    m0 = re.search(r'while let Some\(\((?P<ts>\w+), \((?P<k>\w+), (?P<v>\w+)\)\)\) = self\.left\.front\(\) ', adv.text)
+    ml = re.search(r'let (\w+)(?:\s*:[^=;]*)? = \w+\s*\.checked_sub\(', adv.text)
+    mu = re.search(r'let (\w+)(?:\s*:[^=;]*)? = \w+\s*\.checked_add\(', adv.text)
+    if not (m0 and ml and mu):
+        raise ScanError('interval_join: the left-queue loop / the lower and upper bounds were not found')
+    N = dict(left_ts=m0.group('ts'), lkey=m0.group('k'), lvalue=m0.group('v'), lower=ml.group(1), upper=mu.group(1))
+    def nm(t):
+        return re.sub(r'§(\w+)§', lambda mm: N[mm.group(1)], t)
     # inner while-let over right.front()  (must be rewritten before the outer one: it is nested in it)
     m, ob, cb, body = while_let_to_loop(adv, r'while let Some\(\((?P<a>\w+), _\)\) = (?P<q>\w+)\.front\(\) ', 'inner')
     a, q = m.group('a'), m.group('q')
-    adv.text = (adv.text[:m.start()] + f"loop\n                    invariant is_suffix({q}@, __rk0), {FRAME.replace('self.prev == old(self).prev, ', '')},\n                    ensures is_suffix({q}@, __rk0), {q}@.len() > 0 ==> {q}@[0].0 >= lower,\n"
+    adv.text = (adv.text[:m.start()] + f"loop\n                    invariant is_suffix({q}@, __rk0), {FRAME.replace('self.prev == old(self).prev, ', '')},\n                    ensures is_suffix({q}@, __rk0), {q}@.len() > 0 ==> {q}@[0].0 >= {N['lower']},\n"
                 f"                {{ match {q}.front() {{ Some(__rf) => {{ let {a} = &__rf.0; let ghost __q0 = {q}@;{body} proof {{ assert(is_suffix({q}@, __rk0)) by {{ if {q}@.len() < __q0.len() {{ assert({q}@ =~= __q0.skip(1)); assert(__q0.skip(1) =~= __rk0.skip(__rk0.len() - {q}@.len())); }} }} }} }} None => {{ break; }} }} }};" + adv.text[cb + 1:])
     adv.note('V-ITER', 1, '`while let Some((a, _)) = Q.front() { B }` -> `loop { match Q.front() { Some(f) => { let a = &f.0; B } None => break } }` (B verbatim)')
     # the take_while/map/extend chain
@@ -179,8 +187,8 @@ def build(x):
     adv.text = (adv.text[:mm.start()] + f"""{{ let mut __t: usize = 0; let ghost __rq = {q}@; proof {{ lemma_suffix_sorted(__rq, __rk0); }}
                 loop
                     invariant __t <= {q}@.len(), {q}@ == __rq, is_suffix(__rq, __rk0), self.left@ == __lq, {FRAME},
-                        __lq.len() > 0 && __lq[0] == (*left_ts, (*lkey, *lvalue)) && is_suffix(__lq, L0), R0.contains_key(*lkey) && __rk0 == R0[*lkey],
-                        sorted_ts(__rq), __rq.len() > 0 ==> __rq[0].0 >= lower, lower >= *left_ts - self.lower_bound, upper <= *left_ts + self.upper_bound,
+                        __lq.len() > 0 && __lq[0] == (*{N['left_ts']}, (*{N['lkey']}, *{N['lvalue']})) && is_suffix(__lq, L0), R0.contains_key(*{N['lkey']}) && __rk0 == R0[*{N['lkey']}],
+                        sorted_ts(__rq), __rq.len() > 0 ==> __rq[0].0 >= {N['lower']}, {N['lower']} >= *{N['left_ts']} - self.lower_bound, {N['upper']} <= *{N['left_ts']} + self.upper_bound,
                         {BUF},
                 {{ if __t >= {q}.len() {{ break; }} let __p = &{q}[__t]; let {a} = &__p.0; if !({p}) {{ break; }} let {a2} = &__p.0; let {b} = &__p.1;
                     let __x = {{{e}
